@@ -454,6 +454,14 @@ func genRegistry(out *vc.Out, r *vc.Rand, thorough bool) {
 		{{kind: 'r', e: e("", baseA, 1, "m1")}, {kind: 'r', e: e("a", "", 1, "m1")}, {kind: 'r', e: e("a", "other.net", 1, "m1")},
 			{kind: 'l', s: "a.other.net"}, {kind: 'r', e: e("A", baseA, 3, "m3")}, {kind: 'l', s: "A." + baseA}, {kind: 'l', s: "a." + baseA}},
 	}
+	// restart / reload: Rebuild replaces the map (stale names must be gone, later list entries win), removal by
+	// mapping id, availability of a name
+	seqs = append(seqs,
+		[]rop{{kind: 'r', e: e("a", baseA, 1, "m1")}, {kind: 'r', e: e("b", baseA, 2, "m2")}, {kind: 'a', s: "a", s2: baseA}, {kind: 'a', s: "c", s2: baseA},
+			{kind: 'b', es: []ext{e("b", baseA, 2, "m2"), e("c", baseA, 3, "m3"), e("c", baseA, 4, "m4"), e("", baseA, 5, "m5")}},
+			{kind: 'l', s: "a." + baseA}, {kind: 'l', s: "b." + baseA}, {kind: 'l', s: "c." + baseA}, {kind: 'r', e: e("a", baseA, 6, "m6")},
+			{kind: 'r', e: e("c", baseA, 3, "m3")}, {kind: 'i', s: "m4"}, {kind: 'l', s: "c." + baseA}, {kind: 'a', s: "c", s2: baseA}, {kind: 'i', s: "nope"},
+			{kind: 'r', e: e("c", baseA, 3, "m3")}, {kind: 'b'}, {kind: 'l', s: "c." + baseA}, {kind: 'a', s: "a", s2: baseA}})
 	for _, ops := range seqs {
 		cs := regSeqCase(bases, ops)
 		out.Count("kind:registry-seq")
@@ -466,16 +474,31 @@ func genRegistry(out *vc.Out, r *vc.Rand, thorough bool) {
 		out.Count("kind:registry-seq")
 		out.Case(cs, execRegSeq(nil, ops), cs)
 	}
-	for k := 0; k < 60; k++ {
+	for k := 0; k < 200; k++ {
 		var ops []rop
 		for j := 2 + r.Intn(8); j > 0; j-- {
 			sub := vc.Pick(r, []string{"a", "b"})
-			switch r.Intn(4) {
+			switch r.Intn(7) {
 			case 0, 1:
+				// a mapping id belongs to one name (management never renames a mapping)
 				id := 1 + r.Intn(3)
-				ops = append(ops, rop{kind: 'r', e: e(sub, vc.Pick(r, []string{baseA, baseA, "x.net"}), int64(id), fmt.Sprintf("m%d", id))})
+				ops = append(ops, rop{kind: 'r', e: e(sub, vc.Pick(r, []string{baseA, baseA, "x.net"}), int64(id), fmt.Sprintf("m%d%s", id, sub))})
 			case 2:
 				ops = append(ops, rop{kind: 'x', s: sub + "." + baseA})
+			case 3:
+				ops = append(ops, rop{kind: 'i', s: fmt.Sprintf("m%d%s", 1+r.Intn(3), sub)})
+			case 4:
+				ops = append(ops, rop{kind: 'a', s: sub, s2: baseA})
+			case 5:
+				if r.Intn(3) == 0 {
+					var es []ext
+					for q := r.Intn(3); q > 0; q-- {
+						s2 := vc.Pick(r, []string{"a", "b"})
+						id := 1 + r.Intn(3)
+						es = append(es, e(s2, baseA, int64(id), fmt.Sprintf("m%d%s", id, s2)))
+					}
+					ops = append(ops, rop{kind: 'b', es: es})
+				}
 			default:
 				ops = append(ops, rop{kind: 'l', s: sub + "." + baseA + vc.Pick(r, []string{"", ":80"})})
 			}
@@ -506,6 +529,7 @@ func generate(out *vc.Out, r *vc.Rand, thorough bool) {
 	genBoundary(out)
 	genFault(out)
 	genRegistry(out, r.Fork(), thorough)
+	genSys(out, r.Fork(), thorough)
 	genSpellings(out, r, thorough)
 	genTemplates(out, r.Fork(), thorough)
 	if thorough {
